@@ -76,17 +76,17 @@ Definition start_conc_body (k : bkind) (a b : sexpr) (en : env) : res :=
 Lemma start_conc k a b en : is_seq k = false -> start (Bin k a b) en = start_conc_body k a b en.
 Proof. destruct k; intros H; try discriminate H; reflexivity. Qed.
 
+Definition is_unstop (k : ukind) : bool := match k with UUnstoppable => true | _ => false end.
+
 Definition stop_un_body (k : ukind) (s : sexpr) (ns : nst) (sc x : ost) : res :=
-  match k with
-  | UUnstoppable => (ONode ns sc x, [], None)
-  | _ =>
-      let ns' := ns_set_env ns (env_with_stop (n_env ns) true) in
-      let '(sc', tr, r) := stop s sc in
-      match r with
-      | Some o => let (tr2, o') := un_result k o in (OFin, tr ++ tr2, Some o')
-      | None => (ONode ns' sc' OFin, tr, None)
-      end
-  end.
+  if is_unstop k then (ONode ns sc x, [], None)
+  else
+    let ns' := ns_set_env ns (env_with_stop (n_env ns) true) in
+    let '(sc', tr, r) := stop s sc in
+    match r with
+    | Some o => let (tr2, o') := un_result k o in (OFin, tr ++ tr2, Some o')
+    | None => (ONode ns' sc' OFin, tr, None)
+    end.
 
 Lemma stop_un k s ns sc x : stop (Un k s) (ONode ns sc x) = stop_un_body k s ns sc x.
 Proof. destruct k; reflexivity. Qed.
@@ -288,7 +288,7 @@ Lemma after_first_saved k en oa en2 sv ta tb :
 Proof.
   intros Hs H Ha E Hk s Hsv. subst k.
   assert (Hta : t_sends_done ta = false) by (eapply seq_sd_a; eauto; discriminate).
-  simpl in E. inversion E; subst. inversion Hsv; subst. auto.
+  simpl in E. inversion E as [[E1 E2]]. rewrite Hsv in E2. inversion E2; subst. auto.
 Qed.
 
 Lemma after_second_nd k sv ob :
@@ -297,3 +297,766 @@ Proof.
   intros Hsv Hob. destruct k; simpl; try exact Hob.
   destruct sv as [s|]; [|exact Hob]. destruct ob; try exact Hob. apply Hsv; reflexivity.
 Qed.
+
+Lemma start_just v en : start (Just v) en = (OFin, [], Some (OVal v)).
+Proof. reflexivity. Qed.
+Lemma start_var n en : start (Var n) en = (OFin, [], Some (OVal (nth n (e_bound en) 0%Z))).
+Proof. reflexivity. Qed.
+Lemma start_jerr x en : start (JustErr x) en = (OFin, [], Some (OErr x)).
+Proof. reflexivity. Qed.
+Lemma start_jdone en : start JustDone en = (OFin, [], Some ODone).
+Proof. reflexivity. Qed.
+
+(* the three entry points keep [ok_st] and, where sends_done = false is declared, never deliver done *)
+Definition CF (e : sexpr) : Prop :=
+  (forall en st tr r, start e en = (st, tr, r) -> ok_st e st /\ (sends_done_of e = false -> nd r)) /\
+  (forall st st' tr r, ok_st e st -> stop e st = (st', tr, r) ->
+                       ok_st e st' /\ (sends_done_of e = false -> nd r)) /\
+  (forall st id oc st' tr r hit, ok_st e st -> leafev e st id oc = ((st', tr, r), hit) ->
+                                 ok_st e st' /\ (sends_done_of e = false -> nd r)).
+
+Lemma CF_triv e : sends_done_of e = true -> CF e.
+Proof.
+  intros H. split; [|split]; intros; (split; [apply ok_st_triv; exact H|]);
+    intros Hf; rewrite H in Hf; discriminate Hf.
+Qed.
+
+Lemma nd_some o : o <> ODone -> nd (Some o).
+Proof. intros H o' E; inversion E; subst; exact H. Qed.
+
+Lemma CF_un k s : CF s -> CF (Un k s).
+Proof.
+  intros [IHstart [IHstop IHleaf]].
+  destruct (sends_done_of (Un k s)) eqn:Hsd; [apply CF_triv; exact Hsd|].
+  assert (Hres : forall o, (sends_done_of s = false -> nd (Some o)) -> snd (un_result k o) <> ODone).
+  { intros o Ho. eapply un_result_nd; [exact Hsd|]. intros Hs. apply (Ho Hs o); reflexivity. }
+  split; [|split].
+  - (* start *)
+    intros en st tr r H. rewrite start_un in H.
+    destruct (start s (un_env k en)) as [[sc trs] rs] eqn:Es.
+    destruct (IHstart _ _ _ _ Es) as [Hok Hnd].
+    destruct rs as [o|].
+    + destruct (un_result k o) as [tr2 o'] eqn:Eu. inversion H; subst.
+      split; [apply ok_st_fin|]. intros _. apply nd_some.
+      specialize (Hres o Hnd). rewrite Eu in Hres. exact Hres.
+    + inversion H; subst. split; [|intros _; apply nd_none].
+      rewrite ok_st_un. intros _. exact Hok.
+  - (* stop *)
+    intros st st' tr r Hok H.
+    destruct st as [| c sn |ns sc x];
+      try (rewrite stop_un_other in H by (intros; discriminate); inversion H; subst;
+           split; [exact Hok|intros _; apply nd_none]).
+    rewrite stop_un in H. unfold stop_un_body in H.
+    destruct (is_unstop k).
+    { inversion H; subst. split; [exact Hok|intros _; apply nd_none]. }
+    rewrite ok_st_un in Hok. specialize (Hok Hsd).
+    destruct (stop s sc) as [[sc' trs] rs] eqn:Es.
+    destruct (IHstop _ _ _ _ Hok Es) as [Hok' Hnd].
+    destruct rs as [o|].
+    + destruct (un_result k o) as [tr2 o'] eqn:Eu. inversion H; subst.
+      split; [apply ok_st_fin|]. intros _. apply nd_some.
+      specialize (Hres o Hnd). rewrite Eu in Hres. exact Hres.
+    + inversion H; subst. split; [|intros _; apply nd_none].
+      rewrite ok_st_un. intros _. exact Hok'.
+  - (* leafev *)
+    intros st id oc st' tr r hit Hok H.
+    destruct st as [| c sn |ns sc x];
+      try (rewrite leafev_un_other in H by (intros; discriminate); inversion H; subst;
+           split; [exact Hok|intros _; apply nd_none]).
+    rewrite leafev_un in H. unfold leafev_un_body in H.
+    rewrite ok_st_un in Hok. specialize (Hok Hsd).
+    destruct (leafev s sc id oc) as [[[sc' trs] rs] hit'] eqn:Es.
+    destruct (IHleaf _ _ _ _ _ _ _ Hok Es) as [Hok' Hnd].
+    destruct rs as [o|].
+    + destruct (un_result k o) as [tr2 o'] eqn:Eu. inversion H; subst.
+      split; [apply ok_st_fin|]. intros _. apply nd_some.
+      specialize (Hres o Hnd). rewrite Eu in Hres. exact Hres.
+    + inversion H; subst. split; [|intros _; apply nd_none].
+      rewrite ok_st_un. intros _. exact Hok'.
+Qed.
+
+(* what a sequential node does once its first child completed with [oa] *)
+Lemma seq_tail_ok k a b en oa tra nsX st tr r :
+  is_seq k = true -> sends_done_of (Bin k a b) = false -> CF b ->
+  (sends_done_of a = false -> oa <> ODone) ->
+  match after_first k en oa with
+  | inl o => (OFin, tra, Some o)
+  | inr (en2, sv) =>
+      let '(sb, trb, rb) := start b en2 in
+      match rb with
+      | None => (ONode (ns_set_saved nsX sv) OFin sb, tra ++ trb, None)
+      | Some ob => (OFin, tra ++ trb, Some (after_second k sv ob))
+      end
+  end = (st, tr, r) ->
+  ok_st (Bin k a b) st /\ nd r.
+Proof.
+  intros Hs Hsd [IHb _] Hoa H.
+  pose proof Hsd as Hsd'. rewrite sd_bin in Hsd'.
+  pose proof (seq_sd_b _ _ _ Hs Hsd') as Hb. fold (sends_done_of b) in Hb.
+  destruct (after_first k en oa) as [o|[en2 sv]] eqn:Eaf.
+  - inversion H; subst. split; [apply ok_st_fin|]. apply nd_some.
+    eapply after_first_nd; eauto.
+  - pose proof (after_first_saved _ _ _ _ _ _ _ Hs Hsd' Hoa Eaf) as Hsv.
+    destruct (start b en2) as [[sb trb] rb] eqn:Eb.
+    destruct (IHb _ _ _ _ Eb) as [Hokb Hndb]. specialize (Hndb Hb).
+    destruct rb as [ob|]; inversion H; subst.
+    + split; [apply ok_st_fin|]. apply nd_some. apply after_second_nd; [exact Hsv|].
+      apply (Hndb ob); reflexivity.
+    + split; [|apply nd_none]. rewrite ok_st_bin. intros _.
+      split; [apply ok_st_fin|]. split; [exact Hokb|]. exact Hsv.
+Qed.
+
+Lemma CF_seq k a b : is_seq k = true -> CF a -> CF b -> CF (Bin k a b).
+Proof.
+  intros Hs IHa IHb.
+  destruct (sends_done_of (Bin k a b)) eqn:Hsd; [apply CF_triv; exact Hsd|].
+  pose proof Hsd as Hsd'. rewrite sd_bin in Hsd'.
+  pose proof (seq_sd_b _ _ _ Hs Hsd') as Hb. fold (sends_done_of b) in Hb.
+  destruct IHa as [IHa_start [IHa_stop IHa_leaf]].
+  pose proof IHb as [IHb_start [IHb_stop IHb_leaf]].
+  assert (Hoa : forall ra oa, (sends_done_of a = false -> nd ra) -> ra = Some oa ->
+                              sends_done_of a = false -> oa <> ODone).
+  { intros ra oa Hn E Ha. apply (Hn Ha oa E). }
+  split; [|split].
+  - (* start *)
+    intros en st tr r H. rewrite (start_seq _ _ _ _ Hs) in H. unfold start_seq_body in H.
+    destruct (start a en) as [[sa tra] ra] eqn:Ea.
+    destruct (IHa_start _ _ _ _ Ea) as [Hoka Hnda].
+    destruct ra as [oa|].
+    + destruct (seq_tail_ok k a b en oa tra _ st tr r Hs Hsd IHb (Hoa _ _ Hnda eq_refl) H) as [H1 H2].
+      split; [exact H1|intros _; exact H2].
+    + inversion H; subst. split; [|intros _; apply nd_none].
+      rewrite ok_st_bin. intros _. split; [exact Hoka|]. split; [apply ok_st_fin|].
+      intros _ s E; discriminate E.
+  - (* stop *)
+    intros st st' tr r Hok H.
+    destruct st as [| c sn |ns sa sb];
+      try (rewrite stop_bin_other in H by (intros; discriminate); inversion H; subst;
+           split; [exact Hok|intros _; apply nd_none]).
+    rewrite (stop_seq _ _ _ _ _ _ Hs) in H. unfold stop_seq_body in H.
+    rewrite ok_st_bin in Hok. destruct (Hok Hsd) as [Hoka [Hokb Hsv]].
+    destruct (ph ns).
+    + destruct (stop a sa) as [[sa' tra] ra] eqn:Ea.
+      destruct (IHa_stop _ _ _ _ Hoka Ea) as [Hoka' Hnda].
+      destruct ra as [oa|].
+      * destruct (seq_tail_ok k a b _ oa tra _ st' tr r Hs Hsd IHb (Hoa _ _ Hnda eq_refl) H) as [H1 H2].
+        split; [exact H1|intros _; exact H2].
+      * inversion H; subst. split; [|intros _; apply nd_none].
+        rewrite ok_st_bin. intros _. split; [exact Hoka'|]. split; [exact Hokb|]. exact Hsv.
+    + destruct (stop b sb) as [[sb' trb] rb] eqn:Eb.
+      destruct (IHb_stop _ _ _ _ Hokb Eb) as [Hokb' Hndb]. specialize (Hndb Hb).
+      destruct rb as [ob|]; inversion H; subst.
+      * split; [apply ok_st_fin|]. intros _. apply nd_some. apply after_second_nd; [exact Hsv|].
+        apply (Hndb ob); reflexivity.
+      * split; [|intros _; apply nd_none].
+        rewrite ok_st_bin. intros _. split; [exact Hoka|]. split; [exact Hokb'|]. exact Hsv.
+    + destruct (stop b sb) as [[sb' trb] rb] eqn:Eb.
+      destruct (IHb_stop _ _ _ _ Hokb Eb) as [Hokb' Hndb]. specialize (Hndb Hb).
+      destruct rb as [ob|]; inversion H; subst.
+      * split; [apply ok_st_fin|]. intros _. apply nd_some. apply after_second_nd; [exact Hsv|].
+        apply (Hndb ob); reflexivity.
+      * split; [|intros _; apply nd_none].
+        rewrite ok_st_bin. intros _. split; [exact Hoka|]. split; [exact Hokb'|]. exact Hsv.
+  - (* leafev *)
+    intros st id oc st' tr r hit Hok H.
+    destruct st as [| c sn |ns sa sb];
+      try (rewrite leafev_bin_other in H by (intros; discriminate); inversion H; subst;
+           split; [exact Hok|intros _; apply nd_none]).
+    rewrite (leafev_seq _ _ _ _ _ _ _ _ Hs) in H. unfold leafev_seq_body in H.
+    rewrite ok_st_bin in Hok. destruct (Hok Hsd) as [Hoka [Hokb Hsv]].
+    destruct (ph ns).
+    + destruct (leafev a sa id oc) as [[[sa' tra] ra] hit'] eqn:Ea.
+      destruct (IHa_leaf _ _ _ _ _ _ _ Hoka Ea) as [Hoka' Hnda].
+      destruct ra as [oa|].
+      * assert (Ht : match after_first k (n_env ns) oa with
+                     | inl o => (OFin, tra, Some o)
+                     | inr (en2, sv) =>
+                         let '(sb0, trb, rb) := start b en2 in
+                         match rb with
+                         | None => (ONode (ns_set_saved (ns_set_ph ns PSecond) sv) OFin sb0, tra ++ trb, None)
+                         | Some ob => (OFin, tra ++ trb, Some (after_second k sv ob))
+                         end
+                     end = (st', tr, r)).
+        { destruct (after_first k (n_env ns) oa) as [o|[en2 sv]].
+          - inversion H; reflexivity.
+          - destruct (start b en2) as [[sb0 trb] rb]. destruct rb; inversion H; reflexivity. }
+        destruct (seq_tail_ok k a b _ oa tra _ st' tr r Hs Hsd IHb (Hoa _ _ Hnda eq_refl) Ht) as [H1 H2].
+        split; [exact H1|intros _; exact H2].
+      * inversion H; subst. split; [|intros _; apply nd_none].
+        rewrite ok_st_bin. intros _. split; [exact Hoka'|]. split; [exact Hokb|]. exact Hsv.
+    + destruct (leafev b sb id oc) as [[[sb' trb] rb] hit'] eqn:Eb.
+      destruct (IHb_leaf _ _ _ _ _ _ _ Hokb Eb) as [Hokb' Hndb]. specialize (Hndb Hb).
+      destruct rb as [ob|]; inversion H; subst.
+      * split; [apply ok_st_fin|]. intros _. apply nd_some. apply after_second_nd; [exact Hsv|].
+        apply (Hndb ob); reflexivity.
+      * split; [|intros _; apply nd_none].
+        rewrite ok_st_bin. intros _. split; [exact Hoka|]. split; [exact Hokb'|]. exact Hsv.
+    + destruct (leafev b sb id oc) as [[[sb' trb] rb] hit'] eqn:Eb.
+      destruct (IHb_leaf _ _ _ _ _ _ _ Hokb Eb) as [Hokb' Hndb]. specialize (Hndb Hb).
+      destruct rb as [ob|]; inversion H; subst.
+      * split; [apply ok_st_fin|]. intros _. apply nd_some. apply after_second_nd; [exact Hsv|].
+        apply (Hndb ob); reflexivity.
+      * split; [|intros _; apply nd_none].
+        rewrite ok_st_bin. intros _. split; [exact Hoka|]. split; [exact Hokb'|]. exact Hsv.
+Qed.
+
+Lemma CF_atom e :
+  (forall en, exists o, start e en = (OFin, [], Some o) /\ (sends_done_of e = false -> o <> ODone)) ->
+  (forall st, stop e st = (st, [], None)) ->
+  (forall st id oc, leafev e st id oc = ((st, [], None), false)) ->
+  CF e.
+Proof.
+  intros Hstart Hstop Hleaf. split; [|split].
+  - intros en st tr r H. destruct (Hstart en) as [o [E Ho]]. rewrite E in H. inversion H; subst.
+    split; [apply ok_st_fin|]. intros Hf. apply nd_some. exact (Ho Hf).
+  - intros st st' tr r Hok H. rewrite Hstop in H. inversion H; subst.
+    split; [exact Hok|intros _; apply nd_none].
+  - intros st id oc st' tr r hit Hok H. rewrite Hleaf in H. inversion H; subst.
+    split; [exact Hok|intros _; apply nd_none].
+Qed.
+
+Theorem CF_all : forall e, CF e.
+Proof.
+  induction e as [v|x| |n|id|id|k s IHs|k a IHa b IHb].
+  - apply CF_atom; [|reflexivity|reflexivity].
+    intros en. eexists. split; [reflexivity|]. intros _; discriminate.
+  - apply CF_triv; reflexivity.
+  - apply CF_triv; reflexivity.
+  - apply CF_atom; [|reflexivity|reflexivity].
+    intros en. eexists. split; [reflexivity|]. intros _; discriminate.
+  - apply CF_triv; reflexivity.
+  - apply CF_triv; reflexivity.
+  - apply CF_un; exact IHs.
+  - destruct (is_seq k) eqn:Hs.
+    + apply CF_seq; assumption.
+    + apply CF_triv. rewrite sd_bin. apply conc_sd; exact Hs.
+Qed.
+
+(* node level, as asked: with sends_done = false none of the three entry points delivers done *)
+Theorem sends_done_sound_start e :
+  sends_done_of e = false -> forall en st tr o, start e en = (st, tr, Some o) -> o <> ODone.
+Proof.
+  intros Hsd en st tr o H. destruct (CF_all e) as [Hs _].
+  destruct (Hs _ _ _ _ H) as [_ Hn]. apply (Hn Hsd o); reflexivity.
+Qed.
+
+Theorem sends_done_sound_stop e :
+  sends_done_of e = false ->
+  forall st st' tr o, ok_st e st -> stop e st = (st', tr, Some o) -> o <> ODone.
+Proof.
+  intros Hsd st st' tr o Hok H. destruct (CF_all e) as [_ [Hs _]].
+  destruct (Hs _ _ _ _ Hok H) as [_ Hn]. apply (Hn Hsd o); reflexivity.
+Qed.
+
+Theorem sends_done_sound_leafev e :
+  sends_done_of e = false ->
+  forall st id oc st' tr o hit, ok_st e st -> leafev e st id oc = ((st', tr, Some o), hit) -> o <> ODone.
+Proof.
+  intros Hsd st id oc st' tr o hit Hok H. destruct (CF_all e) as [_ [_ Hs]].
+  destruct (Hs _ _ _ _ _ _ _ Hok H) as [_ Hn]. apply (Hn Hsd o); reflexivity.
+Qed.
+
+(* the state invariant is needed: from an arbitrary (unreachable) state a finally node can deliver a
+   saved done although everything below declares sends_done = false *)
+Example ok_st_needed :
+  exists e st st' tr, sends_done_of e = false /\ stop e st = (st', tr, Some ODone).
+Proof.
+  exists (Bin BFinally (Just 1) (Un UMat (LeafN 0))).
+  exists (ONode (ns_set_saved (mk_nst PSecond (root_env false)) (Some ODone)) OFin
+                (ONode (mk_nst PFirst (root_env false)) (OLeaf false false) OFin)).
+  vm_compute. do 2 eexists. split; reflexivity.
+Qed.
+
+(* ---- whole runs ---------------------------------------------------------------------------------- *)
+Definition run_ok (e : sexpr) (rs : run_state) : Prop :=
+  ok_st e (r_st rs) /\ forall o n, In (XRoot o n) (r_tr rs) -> o <> ODone.
+
+Lemma in_xroot_map_xt o n tr : ~ In (XRoot o n) (map XT tr).
+Proof. induction tr as [|t tr IH]; simpl; [tauto|]. intros [H|H]; [discriminate H|exact (IH H)]. Qed.
+
+Lemma absorb_ok e rs st' tr r :
+  (forall o n, In (XRoot o n) (r_tr rs) -> o <> ODone) ->
+  ok_st e st' -> nd r -> run_ok e (absorb rs (st', tr, r)).
+Proof.
+  intros Htr Hok Hnd. unfold absorb. destruct r as [oc|]; split; simpl; try exact Hok.
+  - intros o n Hin. apply in_app_or in Hin. destruct Hin as [Hin|Hin].
+    + apply in_app_or in Hin. destruct Hin as [Hin|Hin]; [eauto|].
+      exfalso; eapply in_xroot_map_xt; eauto.
+    + destruct Hin as [Hin|[]]. inversion Hin; subst. apply (Hnd o); reflexivity.
+  - intros o n Hin. apply in_app_or in Hin. destruct Hin as [Hin|Hin]; [eauto|].
+    exfalso; eapply in_xroot_map_xt; eauto.
+Qed.
+
+Lemma run_ev_ok e rs ev : sends_done_of e = false -> run_ok e rs -> run_ok e (run_ev e rs ev).
+Proof.
+  intros Hsd [Hok Htr]. destruct (CF_all e) as [_ [Hstop Hleaf]].
+  destruct ev as [id oc|]; unfold run_ev.
+  - destruct (leafev e (r_st rs) id oc) as [[[st' tr] r] hit] eqn:E.
+    destruct hit.
+    + destruct (Hleaf _ _ _ _ _ _ _ Hok E) as [Hok' Hnd]. apply absorb_ok; auto.
+    + split; simpl; [exact Hok|]. intros o n Hin. apply in_app_or in Hin.
+      destruct Hin as [Hin|[Hin|[]]]; [eauto|discriminate Hin].
+  - destruct (r_stopped rs).
+    + split; simpl; [exact Hok|]. intros o n Hin. apply in_app_or in Hin.
+      destruct Hin as [Hin|[Hin|[]]]; [eauto|discriminate Hin].
+    + destruct (stop e (r_st rs)) as [[st' tr] r] eqn:E.
+      destruct (Hstop _ _ _ _ Hok E) as [Hok' Hnd].
+      apply absorb_ok; simpl; auto.
+Qed.
+
+Lemma fold_run_ok e script : forall rs,
+  sends_done_of e = false -> run_ok e rs -> run_ok e (fold_left (run_ev e) script rs).
+Proof.
+  induction script as [|ev script IH]; intros rs Hsd H; simpl; [exact H|].
+  apply IH; [exact Hsd|]. apply run_ev_ok; assumption.
+Qed.
+
+(* (a) *)
+Theorem sends_done_sound e :
+  sends_done_of e = false ->
+  forall pre script o n, In (XRoot o n) (r_tr (exec e pre script)) -> o <> ODone.
+Proof.
+  intros Hsd pre script. unfold exec.
+  assert (H0 : run_ok e (run_start e pre)).
+  { unfold run_start. destruct (start e (root_env pre)) as [[st tr] r] eqn:E.
+    destruct (CF_all e) as [Hstart _]. destruct (Hstart _ _ _ _ E) as [Hok Hnd].
+    apply absorb_ok; simpl; auto. }
+  exact (proj2 (fold_run_ok e script _ Hsd H0)).
+Qed.
+
+(* ================================================================================================ *)
+(* (b), (c) blocking                                                                                  *)
+(* ================================================================================================ *)
+(* Generalisation used to exercise the propagation of never: harness leaf [Leaf id] declares
+   blocking = never when [nv id]; every combinator is the header's, unchanged. *)
+Definition tr_leaf_never : traits := {| t_blocking := BNever; t_sends_done := true; t_affine := false |}.
+
+Fixpoint traits_ofN (nv : nat -> bool) (e : sexpr) : traits :=
+  match e with
+  | Just _ | Var _ => tr_just
+  | JustErr _ | JustDone => tr_inl
+  | Leaf id => if nv id then tr_leaf_never else tr_leaf
+  | LeafN _ => tr_leaf
+  | Un k s => un_traits k (traits_ofN nv s)
+  | Bin k a b => bin_traits k (traits_ofN nv a) (traits_ofN nv b)
+  end.
+Definition blockingN (nv : nat -> bool) (e : sexpr) : bk := t_blocking (traits_ofN nv e).
+
+Lemma traits_ofN_base e : traits_ofN (fun _ => false) e = traits_of e.
+Proof. induction e; simpl; congruence. Qed.
+
+Definition inl_kind (k : bk) : bool := match k with BAlwaysInline | BAlways => true | _ => false end.
+
+Lemma un_blocking k p : t_blocking (un_traits k p) = t_blocking p.
+Proof. destruct k; simpl; try reflexivity; destruct (t_blocking p); reflexivity. Qed.
+
+Lemma bin_blocking_inl k ta tb :
+  inl_kind (t_blocking (bin_traits k ta tb)) = inl_kind (t_blocking ta) && inl_kind (t_blocking tb).
+Proof. destruct k; simpl; destruct (t_blocking ta), (t_blocking tb); reflexivity. Qed.
+
+Lemma bin_blocking_never k ta tb :
+  t_blocking (bin_traits k ta tb) = BNever ->
+  t_blocking ta = BNever \/
+  (t_blocking tb = BNever /\ match k with BFinally | BWhenAll | BStopWhen => True | _ => False end).
+Proof.
+  destruct k; simpl; destruct (t_blocking ta), (t_blocking tb); simpl; intros H;
+    try discriminate H; auto.
+Qed.
+
+Lemma blockingN_un nv k s : blockingN nv (Un k s) = blockingN nv s.
+Proof. unfold blockingN; simpl. apply un_blocking. Qed.
+
+(* conc_child_done: the flags, and the final outcome exactly when both children are done *)
+Lemma ccd_flags k ns i o ns' nw fin :
+  conc_child_done k ns i o = (ns', nw, fin) ->
+  adone ns' = (if i then adone ns else true) /\
+  bdone ns' = (if i then true else bdone ns) /\
+  (adone ns' && bdone ns' = false -> fin = None) /\
+  (adone ns' && bdone ns' = true -> exists o', fin = Some o').
+Proof.
+  unfold conc_child_done.
+  set (ns2 := ns_set_saved _ _).
+  assert (Ha : adone ns2 = (if i then adone ns else true)) by (destruct i; reflexivity).
+  assert (Hb : bdone ns2 = (if i then true else bdone ns)) by (destruct i; reflexivity).
+  destruct (adone ns2 && bdone ns2) eqn:E; intros H; inversion H; subst ns'; subst;
+    rewrite E; repeat split; auto; try (intros X; discriminate X); eauto.
+Qed.
+
+Lemma finish_conc_some k ns sa sb tr o leak :
+  exists tr', finish_conc k ns sa sb tr (Some o) leak = (OFin, tr', Some o).
+Proof. unfold finish_conc. eexists; reflexivity. Qed.
+
+Lemma finish_conc_none k ns sa sb tr leak :
+  finish_conc k ns sa sb tr None leak = (ONode ns sa sb, tr, None).
+Proof. reflexivity. Qed.
+
+Definition completes_in_start (e : sexpr) : Prop :=
+  forall en, exists st tr o, start e en = (st, tr, Some o).
+
+(* (b) *)
+Theorem blocking_inline_soundN nv e :
+  inl_kind (blockingN nv e) = true -> completes_in_start e.
+Proof.
+  induction e as [v|x| |n|id|id|k s IHs|k a IHa b IHb]; intros Hk en.
+  - do 3 eexists; reflexivity.
+  - do 3 eexists; reflexivity.
+  - do 3 eexists; reflexivity.
+  - do 3 eexists; reflexivity.
+  - unfold blockingN in Hk; simpl in Hk. destruct (nv id); discriminate Hk.
+  - discriminate Hk.
+  - rewrite blockingN_un in Hk. destruct (IHs Hk (un_env k en)) as [sc [tr [o E]]].
+    rewrite start_un, E. destruct (un_result k o) as [tr2 o']. do 3 eexists; reflexivity.
+  - unfold blockingN in Hk; simpl in Hk. rewrite bin_blocking_inl in Hk.
+    apply andb_prop in Hk. destruct Hk as [Hka Hkb].
+    specialize (IHa Hka). specialize (IHb Hkb).
+    destruct (is_seq k) eqn:Hs.
+    + rewrite (start_seq _ _ _ _ Hs). unfold start_seq_body.
+      destruct (IHa en) as [sa [tra [oa Ea]]]. rewrite Ea.
+      destruct (after_first k en oa) as [o|[en2 sv]].
+      * do 3 eexists; reflexivity.
+      * destruct (IHb en2) as [sb [trb [ob Eb]]]. rewrite Eb. do 3 eexists; reflexivity.
+    + rewrite (start_conc _ _ _ _ Hs). unfold start_conc_body.
+      set (ns0 := ns_set_own _ _).
+      destruct (IHa (env_own en (own_stop ns0))) as [sa [tra [oa Ea]]]. rewrite Ea.
+      destruct (conc_child_done k ns0 false oa) as [[ns1 nw1] f1] eqn:E1.
+      destruct (ccd_flags _ _ _ _ _ _ _ E1) as [Ha1 _].
+      destruct (IHb (env_own en (own_stop ns1))) as [sb [trb [ob Eb]]]. rewrite Eb.
+      destruct (conc_child_done k ns1 true ob) as [[ns2 nw2] f2] eqn:E2.
+      destruct (ccd_flags _ _ _ _ _ _ _ E2) as [Ha2 [Hb2 [_ Hf]]].
+      destruct Hf as [o' Hf]; [rewrite Ha2, Hb2, Ha1; reflexivity|]. subst f2.
+      destruct (finish_conc_some k ns2 sa OFin (tra ++ trb) o' false) as [tr' Ef]. rewrite Ef.
+      do 3 eexists; reflexivity.
+Qed.
+
+(* ---- (c) never ---------------------------------------------------------------------------------- *)
+(* [pend nv e st]: the operation cannot complete before a never-declared leaf is completed from
+   outside: such a leaf is pending on its critical path, or (finally, source still running) the
+   completion sender that must run afterwards declares never. *)
+Definition is_never (k : bk) : bool := bk_eqb k BNever.
+
+Lemma is_never_true k : is_never k = true <-> k = BNever.
+Proof. destruct k; unfold is_never; simpl; split; intros H; try discriminate H; reflexivity. Qed.
+
+Fixpoint pend (nv : nat -> bool) (e : sexpr) (st : ost) : bool :=
+  match e, st with
+  | Leaf id, OLeaf false _ => nv id
+  | Un k s, ONode ns sc _ => pend nv s sc
+  | Bin k a b, ONode ns sa sb =>
+      if is_seq k then
+        match ph ns with
+        | PFirst => pend nv a sa
+                    || match k with BFinally => is_never (blockingN nv b) | _ => false end
+        | _ => pend nv b sb
+        end
+      else (negb (adone ns) && pend nv a sa) || (negb (bdone ns) && pend nv b sb)
+  | _, _ => false
+  end.
+
+Lemma pend_un nv k s ns sc x : pend nv (Un k s) (ONode ns sc x) = pend nv s sc.
+Proof. reflexivity. Qed.
+
+Lemma pend_seq nv k a b ns sa sb :
+  is_seq k = true ->
+  pend nv (Bin k a b) (ONode ns sa sb) =
+  match ph ns with
+  | PFirst => pend nv a sa || match k with BFinally => is_never (blockingN nv b) | _ => false end
+  | _ => pend nv b sb
+  end.
+Proof. intros H. simpl. rewrite H. reflexivity. Qed.
+
+Lemma pend_conc nv k a b ns sa sb :
+  is_seq k = false ->
+  pend nv (Bin k a b) (ONode ns sa sb) =
+  (negb (adone ns) && pend nv a sa) || (negb (bdone ns) && pend nv b sb).
+Proof. intros H. simpl. rewrite H. reflexivity. Qed.
+
+Lemma pend_un_inv nv k s st : pend nv (Un k s) st = true -> exists ns sc x, st = ONode ns sc x.
+Proof. destruct st; simpl; intros H; try discriminate H. eauto. Qed.
+
+Lemma pend_bin_inv nv k a b st : pend nv (Bin k a b) st = true -> exists ns sa sb, st = ONode ns sa sb.
+Proof. destruct st; simpl; intros H; try discriminate H. eauto. Qed.
+
+Definition NV (nv : nat -> bool) (e : sexpr) : Prop :=
+  (blockingN nv e = BNever ->
+   forall en st tr r, start e en = (st, tr, r) -> r = None /\ pend nv e st = true) /\
+  (forall st st' tr r, pend nv e st = true -> stop e st = (st', tr, r) ->
+                       r = None /\ pend nv e st' = true).
+
+Lemma NV_atom nv e :
+  blockingN nv e <> BNever -> (forall st, pend nv e st = false) -> NV nv e.
+Proof.
+  intros Hb Hp. split.
+  - intros H; contradiction.
+  - intros st st' tr r H. rewrite Hp in H. discriminate H.
+Qed.
+
+Lemma NV_leaf nv id : NV nv (Leaf id).
+Proof.
+  split.
+  - unfold blockingN; simpl. destruct (nv id) eqn:Hn; [|discriminate].
+    intros _ en st tr r H.
+    change (start (Leaf id) en) with
+      (if e_stopped en
+       then (OLeaf false true, [TLeafStart id true (e_stoppable en) (e_q0 en) (e_q1 en); TLeafStop id], @None outcome)
+       else (OLeaf false false, [TLeafStart id false (e_stoppable en) (e_q0 en) (e_q1 en)], None)) in H.
+    destruct (e_stopped en); inversion H; subst; split; try reflexivity; simpl; exact Hn.
+  - intros st st' tr r Hp H.
+    destruct st as [|c sn|ns sa sb]; simpl in Hp; try discriminate Hp.
+    destruct c; [discriminate Hp|].
+    destruct sn.
+    + change (stop (Leaf id) (OLeaf false true)) with (OLeaf false true, @nil tev, @None outcome) in H.
+      inversion H; subst. split; [reflexivity|exact Hp].
+    + change (stop (Leaf id) (OLeaf false false)) with (OLeaf false true, [TLeafStop id], @None outcome) in H.
+      inversion H; subst. split; [reflexivity|exact Hp].
+Qed.
+
+Lemma NV_un nv k s : NV nv s -> NV nv (Un k s).
+Proof.
+  intros [IHstart IHstop]. split.
+  - rewrite blockingN_un. intros Hb en st tr r H. rewrite start_un in H.
+    destruct (start s (un_env k en)) as [[sc trs] rs] eqn:Es.
+    destruct (IHstart Hb _ _ _ _ Es) as [Hr Hp]. subst rs.
+    inversion H; subst. split; [reflexivity|]. rewrite pend_un. exact Hp.
+  - intros st st' tr r Hp H.
+    destruct (pend_un_inv _ _ _ _ Hp) as [ns [sc [x ->]]].
+    rewrite pend_un in Hp. rewrite stop_un in H. unfold stop_un_body in H.
+    destruct (is_unstop k).
+    { inversion H; subst. split; [reflexivity|]. rewrite pend_un. exact Hp. }
+    destruct (stop s sc) as [[sc' trs] rs] eqn:Es.
+    destruct (IHstop _ _ _ _ Hp Es) as [Hr Hp']. subst rs.
+    inversion H; subst. split; [reflexivity|]. rewrite pend_un. exact Hp'.
+Qed.
+
+Lemma NV_seq nv k a b : is_seq k = true -> NV nv a -> NV nv b -> NV nv (Bin k a b).
+Proof.
+  intros Hs [IHa_start IHa_stop] [IHb_start IHb_stop].
+  (* once the source of a finally completed, a never-declared completion sender is started and pends *)
+  assert (Htail : forall en oa tra nsX st tr r,
+             k = BFinally -> is_never (blockingN nv b) = true ->
+             match after_first k en oa with
+             | inl o => (OFin, tra, Some o)
+             | inr (en2, sv) =>
+                 let '(sb, trb, rb) := start b en2 in
+                 match rb with
+                 | None => (ONode (ns_set_saved (ns_set_ph nsX PSecond) sv) OFin sb, tra ++ trb, None)
+                 | Some ob => (OFin, tra ++ trb, Some (after_second k sv ob))
+                 end
+             end = (st, tr, r) -> r = None /\ pend nv (Bin k a b) st = true).
+  { intros en oa tra nsX st tr r -> Hnb H. apply is_never_true in Hnb.
+    change (after_first BFinally en oa) with (@inr outcome _ (en, Some oa)) in H.
+    cbv beta iota in H.
+    destruct (start b en) as [[sb trb] rb] eqn:Eb.
+    destruct (IHb_start Hnb _ _ _ _ Eb) as [Hr Hp]. subst rb.
+    inversion H; subst. split; [reflexivity|]. rewrite (pend_seq _ _ _ _ _ _ _ Hs). exact Hp. }
+  split.
+  - (* start *)
+    intros Hb en st tr r H. unfold blockingN in Hb; simpl in Hb.
+    apply bin_blocking_never in Hb.
+    rewrite (start_seq _ _ _ _ Hs) in H. unfold start_seq_body in H.
+    destruct (start a en) as [[sa tra] ra] eqn:Ea.
+    destruct Hb as [Hna|[Hnb Hk]].
+    + destruct (IHa_start Hna _ _ _ _ Ea) as [Hr Hp]. subst ra.
+      inversion H; subst. split; [reflexivity|]. rewrite (pend_seq _ _ _ _ _ _ _ Hs). simpl.
+      rewrite Hp. reflexivity.
+    + assert (k = BFinally) as Hkf by (destruct k; try contradiction; try discriminate Hs; reflexivity).
+      assert (Hnb' : is_never (blockingN nv b) = true) by (apply is_never_true; exact Hnb).
+      destruct ra as [oa|].
+      * exact (Htail en oa tra (mk_nst PSecond en) st tr r Hkf Hnb' H).
+      * inversion H; subst. split; [reflexivity|]. rewrite (pend_seq _ _ _ _ _ _ _ Hs). simpl.
+        rewrite Hnb'. apply orb_true_r.
+  - (* stop *)
+    intros st st' tr r Hp H.
+    destruct (pend_bin_inv _ _ _ _ _ Hp) as [ns [sa [sb ->]]].
+    rewrite (pend_seq _ _ _ _ _ _ _ Hs) in Hp.
+    rewrite (stop_seq _ _ _ _ _ _ Hs) in H. unfold stop_seq_body in H.
+    destruct (ph ns) eqn:Hph.
+    + destruct (stop a sa) as [[sa' tra] ra] eqn:Ea.
+      apply orb_prop in Hp. destruct Hp as [Hpa|Hfin].
+      * destruct (IHa_stop _ _ _ _ Hpa Ea) as [Hr Hpa']. subst ra.
+        inversion H; subst. split; [reflexivity|]. rewrite (pend_seq _ _ _ _ _ _ _ Hs). simpl.
+        rewrite Hph, Hpa'. reflexivity.
+      * assert (k = BFinally) as Hkf by (destruct k; try discriminate Hfin; reflexivity).
+        assert (Hnb' : is_never (blockingN nv b) = true) by (subst k; exact Hfin).
+        destruct ra as [oa|].
+        -- exact (Htail _ oa tra _ st' tr r Hkf Hnb' H).
+        -- inversion H; subst. split; [reflexivity|]. rewrite (pend_seq _ _ _ _ _ _ _ Hs). simpl.
+           rewrite Hph, Hnb'. apply orb_true_r.
+    + destruct (stop b sb) as [[sb' trb] rb] eqn:Eb.
+      destruct (IHb_stop _ _ _ _ Hp Eb) as [Hr Hpb']. subst rb.
+      inversion H; subst. split; [reflexivity|]. rewrite (pend_seq _ _ _ _ _ _ _ Hs). simpl.
+      rewrite Hph. exact Hpb'.
+    + destruct (stop b sb) as [[sb' trb] rb] eqn:Eb.
+      destruct (IHb_stop _ _ _ _ Hp Eb) as [Hr Hpb']. subst rb.
+      inversion H; subst. split; [reflexivity|]. rewrite (pend_seq _ _ _ _ _ _ _ Hs). simpl.
+      rewrite Hph. exact Hpb'.
+Qed.
+
+Lemma NV_conc nv k a b : is_seq k = false -> NV nv a -> NV nv b -> NV nv (Bin k a b).
+Proof.
+  intros Hs [IHa_start IHa_stop] [IHb_start IHb_stop]. split.
+  - (* start *)
+    intros Hb en st tr r H. unfold blockingN in Hb; simpl in Hb. apply bin_blocking_never in Hb.
+    rewrite (start_conc _ _ _ _ Hs) in H. unfold start_conc_body in H.
+    set (ns0 := ns_set_own _ _) in H.
+    assert (Ha0 : adone ns0 = false) by reflexivity.
+    assert (Hb0 : bdone ns0 = false) by reflexivity.
+    destruct (start a (env_own en (own_stop ns0))) as [[sa tra] ra] eqn:Ea.
+    destruct Hb as [Hna|[Hnb _]].
+    + (* a declares never *)
+      destruct (IHa_start Hna _ _ _ _ Ea) as [Hr Hpa]. subst ra. cbv beta iota in H.
+      destruct (start b (env_own en (own_stop ns0))) as [[sb trb] rb] eqn:Eb.
+      destruct rb as [ob|].
+      * destruct (conc_child_done k ns0 true ob) as [[ns2 newly] fin] eqn:E2.
+        destruct (ccd_flags _ _ _ _ _ _ _ E2) as [Ha2 [Hb2 [Hfn _]]].
+        rewrite Ha0 in Ha2. rewrite Hfn in H by (rewrite Ha2; reflexivity).
+        destruct newly.
+        -- destruct (stop a sa) as [[sa' tra2] ra2] eqn:Es.
+           destruct (IHa_stop _ _ _ _ Hpa Es) as [Hr Hpa']. subst ra2.
+           inversion H; subst. split; [reflexivity|].
+           rewrite (pend_conc _ _ _ _ _ _ _ Hs), Ha2, Hpa'. reflexivity.
+        -- inversion H; subst. split; [reflexivity|].
+           rewrite (pend_conc _ _ _ _ _ _ _ Hs), Ha2, Hpa. reflexivity.
+      * inversion H; subst. split; [reflexivity|].
+        rewrite (pend_conc _ _ _ _ _ _ _ Hs), Ha0, Hpa. reflexivity.
+    + (* b declares never *)
+      destruct ra as [oa|].
+      * destruct (conc_child_done k ns0 false oa) as [[ns1 nw1] f1] eqn:E1.
+        destruct (ccd_flags _ _ _ _ _ _ _ E1) as [_ [Hb1 _]]. rewrite Hb0 in Hb1.
+        destruct (start b (env_own en (own_stop ns1))) as [[sb trb] rb] eqn:Eb.
+        destruct (IHb_start Hnb _ _ _ _ Eb) as [Hr Hpb]. subst rb.
+        inversion H; subst. split; [reflexivity|].
+        rewrite (pend_conc _ _ _ _ _ _ _ Hs), Hb1, Hpb. apply orb_true_r.
+      * destruct (start b (env_own en (own_stop ns0))) as [[sb trb] rb] eqn:Eb.
+        destruct (IHb_start Hnb _ _ _ _ Eb) as [Hr Hpb]. subst rb.
+        inversion H; subst. split; [reflexivity|].
+        rewrite (pend_conc _ _ _ _ _ _ _ Hs), Hb0, Hpb. apply orb_true_r.
+  - (* stop *)
+    intros st st' tr r Hp H.
+    destruct (pend_bin_inv _ _ _ _ _ Hp) as [ns [sa [sb ->]]].
+    rewrite (pend_conc _ _ _ _ _ _ _ Hs) in Hp.
+    rewrite (stop_conc _ _ _ _ _ _ Hs) in H. unfold stop_conc_body in H.
+    destruct (own_stop ns) eqn:Hown.
+    { inversion H; subst. split; [reflexivity|]. rewrite (pend_conc _ _ _ _ _ _ _ Hs). exact Hp. }
+    set (ns1 := ns_set_own _ true) in H.
+    assert (Ha1 : adone ns1 = adone ns) by reflexivity.
+    assert (Hb1 : bdone ns1 = bdone ns) by reflexivity.
+    apply orb_prop in Hp. destruct Hp as [HA|HB].
+    + (* a pends *)
+      apply andb_prop in HA. destruct HA as [Had Hpa]. apply negb_true_iff in Had.
+      destruct (if bdone ns1 then (sb, @nil tev, @None outcome) else stop b sb) as [[sb' trb] rb] eqn:Eb.
+      destruct rb as [ob|].
+      * destruct (conc_child_done k ns1 true ob) as [[ns2 nw2] fin1] eqn:E2.
+        destruct (ccd_flags _ _ _ _ _ _ _ E2) as [Ha2 [_ [Hfn _]]].
+        rewrite Ha1, Had in Ha2. rewrite Hfn in H by (rewrite Ha2; reflexivity).
+        rewrite Ha2 in H.
+        destruct (stop a sa) as [[sa' tra] ra] eqn:Es.
+        destruct (IHa_stop _ _ _ _ Hpa Es) as [Hr Hpa']. subst ra.
+        cbv beta iota in H. rewrite finish_conc_none in H.
+        inversion H; subst. split; [reflexivity|].
+        rewrite (pend_conc _ _ _ _ _ _ _ Hs), Ha2, Hpa'. reflexivity.
+      * cbv beta iota in H. rewrite Ha1, Had in H.
+        destruct (stop a sa) as [[sa' tra] ra] eqn:Es.
+        destruct (IHa_stop _ _ _ _ Hpa Es) as [Hr Hpa']. subst ra.
+        cbv beta iota in H. rewrite finish_conc_none in H.
+        inversion H; subst. split; [reflexivity|].
+        rewrite (pend_conc _ _ _ _ _ _ _ Hs), Ha1, Had, Hpa'. reflexivity.
+    + (* b pends *)
+      apply andb_prop in HB. destruct HB as [Hbd Hpb]. apply negb_true_iff in Hbd.
+      rewrite Hb1, Hbd in H.
+      destruct (stop b sb) as [[sb' trb] rb] eqn:Es.
+      destruct (IHb_stop _ _ _ _ Hpb Es) as [Hr Hpb']. subst rb.
+      cbv beta iota in H.
+      destruct (if adone ns1 then (sa, @nil tev, @None outcome) else stop a sa) as [[sa' tra] ra] eqn:Ea.
+      destruct ra as [oa|].
+      * destruct (conc_child_done k ns1 false oa) as [[ns3 nw3] fin2] eqn:E3.
+        destruct (ccd_flags _ _ _ _ _ _ _ E3) as [_ [Hb3 [Hfn _]]].
+        rewrite Hb1, Hbd in Hb3. rewrite Hfn in H by (rewrite Hb3; apply andb_false_r).
+        rewrite finish_conc_none in H.
+        inversion H; subst. split; [reflexivity|].
+        rewrite (pend_conc _ _ _ _ _ _ _ Hs), Hb3, Hpb'. apply orb_true_r.
+      * rewrite finish_conc_none in H.
+        inversion H; subst. split; [reflexivity|].
+        rewrite (pend_conc _ _ _ _ _ _ _ Hs), Hb1, Hbd, Hpb'. apply orb_true_r.
+Qed.
+
+Theorem NV_all nv : forall e, NV nv e.
+Proof.
+  induction e as [v|x| |n|id|id|k s IHs|k a IHa b IHb].
+  - apply NV_atom; [discriminate|reflexivity].
+  - apply NV_atom; [discriminate|reflexivity].
+  - apply NV_atom; [discriminate|reflexivity].
+  - apply NV_atom; [discriminate|reflexivity].
+  - apply NV_leaf.
+  - apply NV_atom; [discriminate|]. intros st; destruct st as [|c sn|]; reflexivity.
+  - apply NV_un; exact IHs.
+  - destruct (is_seq k) eqn:Hs; [apply NV_seq|apply NV_conc]; assumption.
+Qed.
+
+(* (c) *)
+Theorem blocking_never_soundN nv e :
+  blockingN nv e = BNever -> forall en st tr r, start e en = (st, tr, r) -> r = None.
+Proof.
+  intros Hb en st tr r H. destruct (NV_all nv e) as [Hs _]. exact (proj1 (Hs Hb _ _ _ _ H)).
+Qed.
+
+(* ... and it stays uncompleted however often stop is requested afterwards (a never-declared harness
+   leaf ignores stop): completion needs an external leaf event *)
+Theorem blocking_never_stop_soundN nv e :
+  blockingN nv e = BNever ->
+  forall en st tr r, start e en = (st, tr, r) ->
+  forall st' tr' r', stop e st = (st', tr', r') -> r' = None.
+Proof.
+  intros Hb en st tr r H st' tr' r' H'. destruct (NV_all nv e) as [Hs Hst].
+  destruct (Hs Hb _ _ _ _ H) as [_ Hp]. exact (proj1 (Hst _ _ _ _ Hp H')).
+Qed.
+
+(* ---- the instance: the expressions to_cpp emits ------------------------------------------------ *)
+Lemma blockingN_base e : blockingN (fun _ => false) e = blocking_of e.
+Proof. unfold blockingN, blocking_of. rewrite traits_ofN_base. reflexivity. Qed.
+
+Theorem blocking_inline_sound e :
+  blocking_of e = BAlwaysInline \/ blocking_of e = BAlways ->
+  forall en, exists st tr o, start e en = (st, tr, Some o).
+Proof.
+  intros H. apply (blocking_inline_soundN (fun _ => false)). rewrite blockingN_base.
+  destruct H as [-> | ->]; reflexivity.
+Qed.
+
+Theorem blocking_never_sound e :
+  blocking_of e = BNever -> forall en st tr r, start e en = (st, tr, r) -> r = None.
+Proof. intros H. apply (blocking_never_soundN (fun _ => false)). rewrite blockingN_base. exact H. Qed.
+
+(* no emitted expression declares always or never (no such leaf): over them (c) is vacuous and (b)
+   is about always_inline only; blocking_never_soundN is the non-vacuous statement *)
+Theorem blocking_range e : blocking_of e = BAlwaysInline \/ blocking_of e = BMaybe.
+Proof.
+  unfold blocking_of.
+  induction e as [v|x| |n|id|id|k s IHs|k a IHa b IHb]; simpl; auto.
+  - rewrite un_blocking. exact IHs.
+  - destruct k; simpl; destruct IHa as [-> | ->], IHb as [-> | ->]; simpl; auto.
+Qed.
+
+(* the run-time answer coincides with the static one on every emitted expression (no leaf refines
+   its blocking at run time), so (b) and (c) hold for unifex::blocking(s) as mirrored, too *)
+Theorem rt_blocking_static e : rt_blocking_of e = blocking_of e.
+Proof.
+  induction e as [v|x| |n|id|id|k s IHs|k a IHa b IHb]; try reflexivity.
+  - destruct k; simpl; try reflexivity; rewrite IHs; unfold blocking_of; simpl;
+      try reflexivity.
+  - destruct k; simpl; try reflexivity; rewrite IHa; try rewrite IHb; reflexivity.
+Qed.
+
+(* non-vacuity *)
+Example never_propagates :
+  let nv := fun id => Nat.eqb id 0 in
+  blockingN nv (Bin BWhenAll (Bin BStopWhen (LeafN 1) (Leaf 0)) JustDone) = BNever /\
+  blockingN nv (Bin BFinally (LeafN 1) (Un (UThen (FAdd 1)) (Leaf 0))) = BNever /\
+  blockingN nv (Bin BLetV (Leaf 0) (Just 1)) = BNever /\
+  blockingN nv (Bin BLetV (Just 1) (Leaf 0)) = BMaybe.
+Proof. vm_compute. repeat split. Qed.
+
+Example inline_example :
+  blocking_of (Bin BWhenAll (Bin BLetE (JustErr 5) (Var 0)) (Un UDoneOpt JustDone)) = BAlwaysInline /\
+  sends_done_of (Un UDoneOpt (Bin BLetD JustDone (Just 3))) = false /\
+  sends_done_of (Bin BLetD (LeafN 0) (Un (UUponDone (FAdd 1)) (Leaf 1))) = false.
+Proof. vm_compute. repeat split. Qed.
